@@ -44,9 +44,84 @@ var unsafeNames = []string{"a b", "web(1)", "wéb", "a%20b", "a?b", "a#b", "we[b
 
 var dcPool = []string{"dc1", "dc2", "d.c", "dc-3"}
 
+type provider struct{ name, issuer string }
+
+// jwt-provider config entries that exist; "nope" is referenced by some intentions but never exists
+var providerPool = []provider{{"okta", "https://okta.example"}, {"auth0", "https://auth0.example"}, {"dex", "https://okta.example"}}
+
 type envT struct {
-	localTD string
-	bundles []bundle // slice order; last of a name wins
+	localTD   string
+	bundles   []bundle // slice order; last of a name wins
+	providers []provider
+}
+
+func (e envT) providerMap() map[string]*structs.JWTProviderConfigEntry {
+	if len(e.providers) == 0 {
+		return nil
+	}
+	m := map[string]*structs.JWTProviderConfigEntry{}
+	for _, p := range e.providers {
+		m[p.name] = &structs.JWTProviderConfigEntry{Kind: structs.JWTProvider, Name: p.name, Issuer: p.issuer}
+	}
+	return m
+}
+
+func (e envT) issuer(name string) (string, bool) {
+	for _, p := range e.providers {
+		if p.name == name {
+			return p.issuer, true
+		}
+	}
+	return "", false
+}
+
+// jwtSat: is the requirement met by the validated token payloads of the request? No providers:
+// no requirement; otherwise one (known) provider must fit with its issuer and every claim.
+func jwtSat(e envT, req *structs.IntentionJWTRequirement, r *request) bool {
+	if req == nil || len(req.Providers) == 0 {
+		return true
+	}
+	known := 0
+	for _, p := range req.Providers {
+		if _, ok := e.issuer(p.Name); ok {
+			known++
+		}
+	}
+	if known == 0 {
+		return true // only unknown providers: makeRBACRules fails for such an intention anyway
+	}
+	for _, p := range req.Providers {
+		iss, ok := e.issuer(p.Name)
+		if !ok {
+			continue
+		}
+		key := "jwt_payload_" + p.Name
+		if !r.has([]string{key, "iss"}, iss) {
+			continue
+		}
+		all := true
+		for _, c := range p.VerifyClaims {
+			if !r.has(append([]string{key}, c.Path...), c.Value) {
+				all = false
+			}
+		}
+		if all {
+			return true
+		}
+	}
+	return false
+}
+
+func jwtUnknown(e envT, req *structs.IntentionJWTRequirement) bool {
+	if req == nil {
+		return false
+	}
+	for _, p := range req.Providers {
+		if _, ok := e.issuer(p.Name); !ok {
+			return true
+		}
+	}
+	return false
 }
 
 func (e envT) proto() []*pbpeering.PeeringTrustBundle {
@@ -335,6 +410,9 @@ func decide(e envT, ixns []*structs.Intention, dflt, http bool, c caller, r *req
 	if best == nil {
 		return dflt, nil
 	}
+	if http && !jwtSat(e, best.JWT, r) {
+		return dflt, best // requirement of the deciding intention not met: default policy
+	}
 	if len(best.Permissions) == 0 {
 		return best.Action == structs.IntentionActionAllow, best
 	}
@@ -343,13 +421,81 @@ func decide(e envT, ixns []*structs.Intention, dflt, http bool, c caller, r *req
 	}
 	for _, p := range best.Permissions {
 		if permMatches(p, r) {
+			if !jwtSat(e, p.JWT, r) {
+				return dflt, best
+			}
 			return p.Action == structs.IntentionActionAllow, best
 		}
 	}
 	return dflt, best
 }
 
+// expectError: makeRBACRules fails when an intention that reaches the conversion (highest
+// precedence of its source, trust bundle present) names a JWT provider without config entry.
+func expectError(e envT, ixns []*structs.Intention, http bool) bool {
+	if !http {
+		return false
+	}
+	xs := append([]*structs.Intention(nil), ixns...)
+	sort.SliceStable(xs, func(i, j int) bool { return higher(xs[i], xs[j]) })
+	seen := map[[2]string]bool{}
+	for _, x := range xs {
+		k := [2]string{x.SourcePeer, x.SourceName}
+		if seen[k] {
+			continue
+		}
+		seen[k] = true
+		if _, _, ok := e.peerIdentity(x.SourcePeer); !ok {
+			continue
+		}
+		if jwtUnknown(e, x.JWT) {
+			return true
+		}
+		for _, p := range x.Permissions {
+			if jwtUnknown(e, p.JWT) {
+				return true
+			}
+		}
+	}
+	return false
+}
+
 // ---------------------------------------------------------------- encoders for the op line
+
+func encFact(path []string, val string) string {
+	t := make([]string, len(path))
+	for i, p := range path {
+		t[i] = hx.EncS(p)
+	}
+	return strings.Join(t, ">") + "<" + hx.EncS(val)
+}
+
+func encJWT(req *structs.IntentionJWTRequirement) string {
+	if req == nil || len(req.Providers) == 0 {
+		return "-"
+	}
+	var ps []string
+	for _, p := range req.Providers {
+		cs := "-"
+		if len(p.VerifyClaims) > 0 {
+			t := make([]string, len(p.VerifyClaims))
+			for i, c := range p.VerifyClaims {
+				t[i] = encFact(c.Path, c.Value)
+			}
+			cs = strings.Join(t, "^")
+		}
+		ps = append(ps, hx.EncS(p.Name)+"~"+cs)
+	}
+	return strings.Join(ps, "+")
+}
+
+func encProviders(ps []provider) string {
+	t := make([]string, len(ps))
+	for i, p := range ps {
+		t[i] = hx.EncS(p.name) + "~" + hx.EncS(p.issuer)
+	}
+	return hx.EncList(t)
+}
 
 func encHdr(h structs.IntentionHTTPHeaderPermission) string {
 	return strings.Join([]string{hx.EncS(h.Name), hx.EncBool(h.Present), hx.EncS(h.Exact), hx.EncS(h.Prefix), hx.EncS(h.Suffix),
@@ -366,7 +512,7 @@ func encInner(t []string) string {
 func encPerm(p *structs.IntentionPermission) string {
 	a := hx.EncBool(p.Action == structs.IntentionActionAllow)
 	if p.HTTP == nil {
-		return a + "!0!=!=!=!-!-"
+		return a + "!0!=!=!=!-!-!" + encJWT(p.JWT)
 	}
 	var hs, ms []string
 	for _, h := range p.HTTP.Header {
@@ -375,7 +521,7 @@ func encPerm(p *structs.IntentionPermission) string {
 	for _, m := range p.HTTP.Methods {
 		ms = append(ms, hx.EncS(m))
 	}
-	return strings.Join([]string{a, "1", hx.EncS(p.HTTP.PathExact), hx.EncS(p.HTTP.PathPrefix), hx.EncS(p.HTTP.PathRegex), encInner(hs), encInner(ms)}, "!")
+	return strings.Join([]string{a, "1", hx.EncS(p.HTTP.PathExact), hx.EncS(p.HTTP.PathPrefix), hx.EncS(p.HTTP.PathRegex), encInner(hs), encInner(ms), encJWT(p.JWT)}, "!")
 }
 
 func encIxn(x *structs.Intention) string {
@@ -388,7 +534,7 @@ func encIxn(x *structs.Intention) string {
 		ps = strings.Join(t, "|")
 	}
 	return strings.Join([]string{hx.EncS(x.SourcePeer), hx.EncS(x.SourceName), hx.EncS(x.DestinationName),
-		itoa(x.Precedence), hx.EncBool(x.Action == structs.IntentionActionAllow), ps}, ";")
+		itoa(x.Precedence), hx.EncBool(x.Action == structs.IntentionActionAllow), ps, encJWT(x.JWT)}, ";")
 }
 
 func itoa(n int) string {
@@ -473,7 +619,11 @@ func encReq(r *request, perms []*structs.IntentionPermission) string {
 	for _, p := range rxPairs(perms, r) {
 		rx = append(rx, hx.EncS(p[0])+"~"+hx.EncS(p[1]))
 	}
-	return hx.EncS(r.path) + ";" + encInner(hs) + ";" + encInner(rx)
+	var md []string
+	for _, f := range r.meta {
+		md = append(md, encFact(f.path, f.val))
+	}
+	return hx.EncS(r.path) + ";" + encInner(hs) + ";" + encInner(rx) + ";" + encInner(md)
 }
 
 func allPerms(xs []*structs.Intention) []*structs.IntentionPermission {
@@ -511,7 +661,59 @@ func genRequest(r *hx.RNG) *request {
 			q.headers = append(q.headers, [2]string{strings.ToLower(n), hx.Pick(r, hdrVals)})
 		}
 	}
+	q.meta = genMeta(r)
 	return q
+}
+
+var claimPool = []structs.IntentionJWTClaimVerification{
+	{Path: []string{"perms", "role"}, Value: "admin"},
+	{Path: []string{"aud"}, Value: "api"},
+	{Path: []string{"perms", "role"}, Value: "user"},
+}
+
+// genJWT: a requirement naming one or two providers (rarely one without config entry)
+func genJWT(r *hx.RNG, allowUnknown bool) *structs.IntentionJWTRequirement {
+	req := &structs.IntentionJWTRequirement{}
+	if r.Chance(5) {
+		return req // present but empty: no requirement
+	}
+	names := []string{"okta", "auth0", "dex"}
+	hx.Shuffle(r, names)
+	for _, n := range names[:1+r.Intn(2)] {
+		p := &structs.IntentionJWTProvider{Name: n}
+		for k := r.Intn(3); k > 0; k-- {
+			c := hx.Pick(r, claimPool)
+			p.VerifyClaims = append(p.VerifyClaims, &structs.IntentionJWTClaimVerification{Path: c.Path, Value: c.Value})
+		}
+		req.Providers = append(req.Providers, p)
+	}
+	if allowUnknown && r.Chance(6) {
+		req.Providers = append(req.Providers, &structs.IntentionJWTProvider{Name: "nope"})
+	}
+	return req
+}
+
+// genMeta: validated token payloads of a request, as the jwt_authn filter would publish them
+func genMeta(r *hx.RNG) []fact {
+	var out []fact
+	for _, p := range providerPool {
+		if !r.Chance(45) {
+			continue
+		}
+		key := "jwt_payload_" + p.name
+		iss := p.issuer
+		if r.Chance(15) {
+			iss = "https://evil.example"
+		}
+		out = append(out, fact{[]string{key, "iss"}, iss})
+		if r.Chance(60) {
+			out = append(out, fact{[]string{key, "perms", "role"}, hx.Pick(r, []string{"admin", "user", "Admin"})})
+		}
+		if r.Chance(50) {
+			out = append(out, fact{[]string{key, "aud"}, hx.Pick(r, []string{"api", "web"})})
+		}
+	}
+	return out
 }
 
 func genHdrPerm(r *hx.RNG, valid bool) structs.IntentionHTTPHeaderPermission {
@@ -584,5 +786,8 @@ func genPerm(r *hx.RNG, valid bool) *structs.IntentionPermission {
 		h.PathPrefix = "/"
 	}
 	p.HTTP = h
+	if r.Chance(20) {
+		p.JWT = genJWT(r, !valid || r.Chance(30))
+	}
 	return p
 }
